@@ -529,8 +529,14 @@ func (d *driver) monitorCache(id string, evs []event) {
 			s.handles--
 			s.refs = e.Refs
 			if e.Refs < 0 || s.handles < 0 {
+				var hist []event
+				for _, x := range evs {
+					if x.Acc == e.Acc {
+						hist = append(hist, x)
+					}
+				}
 				d.rep.Violate("C08/refs-unbalanced/negative",
-					fmt.Sprintf("%s: reference count of a cache entry dropped to %d (handles %d)", id, e.Refs, s.handles), map[string]any{"prog": id, "seq": e.Seq})
+					fmt.Sprintf("%s: reference count of a cache entry dropped to %d (handles %d)", id, e.Refs, s.handles), map[string]any{"prog": id, "seq": e.Seq, "entry_events": hist})
 			}
 		case "c.close.timeout":
 			s.timeout = true
